@@ -1,8 +1,8 @@
 //! C14 correspondence driver: an HTTP request *description* (entry point, method, URL, a list of
 //! builder / request calls) is played against the REAL crux_http through both APIs
 //!   * command API   `crux_http::command::Http::<Effect, Event>::{get,..,request}(..)...build().then_send(..)`
-//!   * capability API `caps.http.{get,..,request}(..)...send(..)` inside a real `Core<App>`; the calls after
-//!     `split` are made on the `crux_http::Request` itself from a per-request middleware
+//!   * capability API `caps.http.{get,..,request}(..)...send(..)` inside a real `Core<App>`;
+//!   in both, the calls after `split` are made on the `crux_http::Request` itself from a per-request middleware
 //! and the request effects that reach the shell are printed, one JSON object per case, together with
 //! everything the Coq side needs that is an *oracle* (URL serialisation by the `url` crate, JSON bytes by
 //! serde_json, MIME rendering by http-types) computed here directly from the description, never through
